@@ -30,12 +30,19 @@ def run_case(case, model, tags=("corr", "C04", "C05")):
 def check_text(text, ap, model, rng, tags):
     out = {"corr": [], "C04": [], "C05": []}
     cl = set()
-    sim, err = RA.impl_load(text)
+    import gen_rv
+    from common import obs_state, norm_model_state
+    from rv_exec import view
+    dcfg = gen_rv.gen_cache_cfg(rng) if rng.random() < 0.3 else []
+    icfg = gen_rv.gen_cache_cfg(rng) if rng.random() < 0.2 else []
+    sim, err = RA.impl_load(text, dcfg, icfg)
     tk = RA.tokens_of(text)
     if tk[0] == "syntax":
         out["corr"].append(("disagreement", f"generated source rejected by the tokenizer at line {tk[1]}: {text.splitlines()[tk[1]-1]!r}"))
         return out, cl, text
-    r = model.call([60, [], [], tk[1]])
+    r = model.call([60, dcfg, icfg, tk[1]])
+    if dcfg:
+        cl.add("dcache")
     merr = r[0][0] if r[0] else None
     if err is not None:
         cl.add("err:%d" % err[0])
@@ -61,6 +68,11 @@ def check_text(text, ap, model, rng, tags):
             out["corr"].append(("disagreement", f"instruction #{k}: impl {lst[k] if k < len(lst) else None} model {mlst[k] if k < len(mlst) else None}"))
         if r[2] != low:
             out["corr"].append(("disagreement", "lower memory after load differs from the model"))
+        names = ["regs", "out", "exit", "icount", "cycles", "dstats", "istats", "pc"]
+        io, mo = obs_state(sim), norm_model_state(r[3])
+        if view(io, names) != view(mo, names):
+            k = next(n for n in names if view(io, [n]) != view(mo, [n]))
+            out["corr"].append(("disagreement", f"state after load: {k} impl {view(io, [k])} model {view(mo, [k])} (parser preloads must not touch counters)"))
     # reference assembler
     try:
         exp, labels = RA.ref_assemble(ap)
@@ -92,14 +104,14 @@ def check_text(text, ap, model, rng, tags):
         cl.add("data")
     # assembling is a function of the text: the same simulation object assembles the same text again identically
     if "C04" in tags:
-        sim_again, err_again = RA.impl_load(text, sim=sim)
+        sim_again, err_again = RA.impl_load(text, dcfg, icfg, sim=sim)
         if err_again is not None or RA.listing(sim_again) != lst or RA.lower_bytes(sim_again) != low:
             out["C04"].append(("violation", f"assembling the same text a second time on the same simulation differs ({err_again})"))
     # spelling independence (metamorphic): two more renderings
     if "C04" in tags:
         for _ in range(2):
             t2 = RA.render(rng, ap)
-            sim2, err2 = RA.impl_load(t2)
+            sim2, err2 = RA.impl_load(t2, dcfg, icfg)
             if err2 is not None or RA.listing(sim2) != lst or RA.lower_bytes(sim2) != low:
                 out["C04"].append(("violation", f"a different spelling of the same program assembles differently ({err2})"))
                 break
